@@ -3,6 +3,7 @@ package main
 // Query rendering and the solver race.
 
 import (
+	"go/types"
 	"sync/atomic"
 	"bytes"
 	"context"
@@ -207,6 +208,22 @@ func (w *World) renderQuery(o *Obl, forCVC5 bool) string {
 			fmt.Fprintf(&b, "(assert (=> (< %s 0) (str.prefixof \"-\" (itoa %s))))\n", k, k)
 		}
 	}
+	if o.Kind == "safety" || o.Kind == "requires" || o.Kind == "node-invariant" {
+		// node invariants: every AST interface value was boxed somewhere in the loaded packages, where its
+		// node invariant is an obligation of its own; here it is available for any value the query takes apart
+		var probe strings.Builder
+		for _, a := range o.Assumes {
+			probe.WriteString(a.String())
+		}
+		probe.WriteString(o.Goal.String())
+		probe.WriteString(defs)
+		ptxt := probe.String()
+		for _, ax := range w.nodeAxiomList() {
+			if strings.Contains(ptxt, "("+ax.sel+" ") {
+				b.WriteString(ax.text)
+			}
+		}
+	}
 	for _, a := range o.Assumes {
 		b.WriteString("(assert " + a.String() + ")\n")
 	}
@@ -282,6 +299,73 @@ func strRangeAxioms(terms map[string]*Term, vars map[string]string) string {
 		}
 	}
 	return b.String()
+}
+
+type nodeAxiom struct {
+	ctor, sel, text string
+}
+
+// nodeAxiomList: one quantified fact per AST node type with a node invariant: whatever interface
+// value is built with that type's constructor carries a payload that satisfies the invariant.
+func (w *World) nodeAxiomList() []nodeAxiom {
+	if w.nodeAxiomsDone {
+		return w.nodeAxioms
+	}
+	w.nodeAxiomsDone = true
+	keys := make([]string, 0, len(w.nodeInv))
+	for k := range w.nodeInv {
+		keys = append(keys, k)
+	}
+	sort.Strings(keys)
+	for _, k := range keys {
+		cn, ok := w.dynCtor[k]
+		if !ok {
+			continue
+		}
+		ci := ctorByName[cn]
+		if ci == nil || len(ci.Sels) == 0 {
+			continue
+		}
+		sel := ci.Sels[0]
+		pkg := k[:strings.Index(k, ".")]
+		var named *types.Named
+		for _, n := range w.dynTypes {
+			if typeKey(n) == k {
+				named = n
+			}
+		}
+		if named == nil {
+			continue
+		}
+		psort := w.sortOf(named)
+		d := VarT("d!n", "Dyn")
+		payload := App(sel, psort, d)
+		var parts []*Term
+		for _, c := range w.nodeInv[k] {
+			x := newExec(w, "nodeinv."+k)
+			st := newState()
+			env := x.newSpecEnv(st, st, w.anyFuncOfPkg(pkg))
+			env.vars[c.Param] = VarT("node!x", psort)
+			g, err := env.evalBool(c.Expr)
+			if err != nil {
+				fmt.Printf("CONTRACT-ERROR %s:%d node-invariant %s: %v\n", shortFile(c.File), c.Line, c.Label, err)
+				continue
+			}
+			parts = append(parts, subst(g, map[string]*Term{"node!x": payload}))
+		}
+		if len(parts) == 0 {
+			continue
+		}
+		body := And(parts...)
+		txt := body.String()
+		if strings.Contains(txt, "(F_") || strings.Contains(txt, "(D_") {
+			fmt.Printf("NOTE node invariant of %s mentions a defined function and is not used as an axiom\n", k)
+			continue
+		}
+		text := fmt.Sprintf("(assert (forall ((d!n Dyn)) (! (=> ((_ is %s) d!n) %s) :pattern ((%s d!n)))))\n", cn, txt, sel)
+		w.nodeAxioms = append(w.nodeAxioms, nodeAxiom{ctor: cn, sel: sel, text: text})
+	}
+	return w.nodeAxioms
 }
 
 type solverRes struct {
